@@ -10,6 +10,7 @@
      base   (server processes only) frames a stream already had when the process started
      rec    an emitter buffered a frame             -> System!Recorded
      pub    an emitter published a frame            -> System!Published
+     xb/xe  a workspace-mutating execution begins / ends (tool call that needs the permit, task process) -> System!XBegin / XEnd
 
    The trace alone decides which action fires; every guard of System that is false in the state
    reached is recorded in `bad` with the line number; the design half of System is not used (its
@@ -22,19 +23,21 @@ Ev(e) == l <= Len(Rec) /\ Rec[l].ev = e /\ l' = l + 1
 TInit == Init /\ l = 1
 TReset == /\ Ev("reset") /\ UNCHANGED <<bad, dvars>>
           /\ cnt' = Zero /\ msgs' = Empty /\ run' = Empty /\ sess' = Empty /\ job' = Empty /\ task' = Empty
-          /\ creq' = {} /\ cached' = Zero /\ recd' = {}
+          /\ creq' = {} /\ cached' = Zero /\ recd' = {} /\ execs' = {}
 \* a process that serves a store another process wrote before it (a restarted `rip serve`): the stream is known
 \* to hold n frames already; the recorder of the earlier process has the guards of those
 TBase == /\ Ev("base") /\ LET b == Rec[l] IN
             /\ cnt' = Put(cnt, b.sk \o ":" \o b.s, b.n)
             /\ sess' = IF b.sk = "session" THEN Put(sess, b.s, "open") ELSE sess
             /\ task' = IF b.sk = "task" THEN Put(task, b.s, "spawned") ELSE task
-         /\ UNCHANGED <<msgs, run, job, creq, cached, recd, bad, dvars>>
+         /\ UNCHANGED <<msgs, run, job, creq, cached, recd, execs, bad, dvars>>
 TFrame == Ev("f") /\ Frame(Rec[l], l) /\ UNCHANGED dvars
 TCache == Ev("c") /\ CacheAppend(Rec[l].s, Rec[l].q, l) /\ UNCHANGED dvars
 TRec == Ev("rec") /\ Recorded(Rec[l].s, Rec[l].q, l) /\ UNCHANGED dvars
 TPub == Ev("pub") /\ Published(Rec[l].s, Rec[l].q, l) /\ UNCHANGED dvars
-TNext == TReset \/ TBase \/ TFrame \/ TCache \/ TRec \/ TPub
+TXb == Ev("xb") /\ XBegin(Rec[l].id, l) /\ UNCHANGED dvars
+TXe == Ev("xe") /\ XEnd(Rec[l].id, l) /\ UNCHANGED dvars
+TNext == TXb \/ TXe \/ TReset \/ TBase \/ TFrame \/ TCache \/ TRec \/ TPub
 TSpec == TInit /\ [][TNext]_tvars
 Report == IF l = Len(Rec) + 1 THEN PrintT(<<"BAD", ToJson(bad)>>) ELSE TRUE
 Accepted == LET d == TLCGet("stats").diameter IN
